@@ -195,9 +195,165 @@ def resolve_harness_names(ws, names):
     return full
 
 
-def run_jobs(ws, features, jobs, workers=None, progress=True):
+def harness_metadata(ws):
+    """pretty/short harness name -> metadata entry of the all-harness codegen build."""
+    out = {}
+    for root, _, files in os.walk(ws.target):
+        for f in files:
+            if f.endswith(".kani-metadata.json"):
+                try:
+                    md = json.load(open(os.path.join(root, f)))
+                except Exception:
+                    continue
+                for h in md.get("proof_harnesses", []):
+                    if os.path.exists(h.get("goto_file", "")):
+                        out[h.get("pretty_name", "").split("::")[-1]] = h
+    return out
+
+
+KANI_HOME = os.path.expanduser("~/.kani/kani-0.68.0")
+KANI_LIB_C = os.path.join(KANI_HOME, "library", "kani", "kani_lib.c")
+# the flags kani-driver 0.68 passes to CBMC 6.11 (read from `cargo kani --verbose`); unwinding
+# assertions are on by default in CBMC 6
+CBMC_FLAGS = ["--no-malloc-may-fail", "--no-undefined-shift-check", "--no-signed-overflow-check", "--nan-check",
+              "--no-self-loops-to-assumptions", "--no-pointer-primitive-check", "--object-bits", "16",
+              "--sat-solver", "cadical", "--slice-formula"]
+
+
+def direct_available():
+    return os.path.exists(KANI_LIB_C) and shutil.which("goto-cc") and shutil.which("goto-instrument") \
+        and shutil.which("cbmc") and not os.environ.get("VERIF_NO_DIRECT")
+
+
+def run_job_direct(ws, job, md):
+    """The steps kani-driver performs for one harness (goto-cc link, entry point, CPROVER library,
+    function-body generation, back-edge normalisation, cbmc), run on the goto program that the one
+    all-harness codegen build produced - no cargo invocation, no build lock, no recompilation.
+    Returns None if a preparation step fails (caller falls back to `cargo kani --harness`)."""
+    res = Result(job)
+    gdir = os.path.join(ws.dir, "goto")
+    os.makedirs(gdir, exist_ok=True)
+    out = os.path.join(gdir, job.name + ".out")
+    log = os.path.join(ws.logs, job.name + ".log")
+    res.log = log
+    t0 = time.time()
+    mangled = md["mangled_name"]
+    steps = [
+        ["goto-cc", md["goto_file"], KANI_LIB_C, "-o", out],
+        ["goto-cc", out, "--function", mangled, "-o", out],
+        ["goto-instrument", "--add-library", "--no-malloc-may-fail", out, out],
+        ["goto-instrument", "--generate-function-body-options", "assert-false-assume-false",
+         "--generate-function-body", ".*", "--drop-unused-functions", out, out],
+        ["goto-instrument", "--ensure-one-backedge-per-target", out, out],
+    ]
+    with open(log, "w") as lf:
+        lf.write("# direct pipeline for %s\n" % md.get("pretty_name"))
+    for st in steps:
+        rc, so, _ = sh(st, cwd=ws.hk, timeout=600)
+        if rc != 0:
+            with open(log, "a") as lf:
+                lf.write("step failed: %s\n%s\n" % (" ".join(st), (so or "")[-2000:]))
+            return None
+    unwind = md.get("attributes", {}).get("unwind_value")
+    cmd = ["cbmc"] + CBMC_FLAGS + (["--unwind", str(unwind)] if unwind is not None else []) + \
+          [out, "--verbosity", "4", "--json-ui"]
+    jout = os.path.join(gdir, job.name + ".json")
+    shcmd = "ulimit -v %d; exec %s > %s 2>> %s" % (job.mem_gb * 1024 * 1024, " ".join("'%s'" % c for c in cmd), jout, log)
+    tc = time.time()
+    rc, _, dt = sh(["bash", "-c", shcmd], cwd=ws.hk, timeout=job.timeout)
+    res.solver_s = round(time.time() - tc, 2)
+    res.wall_s = time.time() - t0
+    try:
+        os.remove(out)
+    except OSError:
+        pass
+    if rc == -9:
+        res.status = "timeout"
+        res.note = "exceeded %ds" % job.timeout
+        return res
+    try:
+        data = json.load(open(jout))
+    except Exception as e:
+        res.status = "error"
+        res.note = "CBMC error/out of memory (no parsable output, rc=%s)" % rc
+        return res
+    finally:
+        try:
+            os.remove(jout)
+        except OSError:
+            pass
+    results = None
+    errors = []
+    for e in data:
+        if isinstance(e, dict):
+            if "result" in e:
+                results = e["result"]
+            if e.get("messageType") == "ERROR":
+                errors.append(e.get("messageText", ""))
+    if results is None:
+        res.status = "error"
+        res.note = "CBMC error/out of memory: %s" % " | ".join(errors)[:300]
+        return res
+    reach = {}
+    for r in results:
+        cls = r.get("property", "").rsplit(".", 2)[-2] if r.get("property", "").count(".") >= 2 else ""
+        if cls == "reachability_check":
+            reach[r.get("description", "")] = r.get("status")
+    lines = []
+    unwind_fail = False
+    for r in results:
+        name = r.get("property", "")
+        cls = name.rsplit(".", 2)[-2] if name.count(".") >= 2 else ""
+        if cls == "reachability_check":
+            continue
+        res.nchecks += 1
+        desc = r.get("description", "")
+        m = re.match(r"\[(KANI_CHECK_ID_[^\]]*)\]\s*", desc)
+        if m:
+            desc = desc[m.end():]
+        desc = " ".join(desc.strip('"').split())
+        sl = r.get("sourceLocation", {}) or {}
+        f = sl.get("file", "")
+        if f.startswith(ws.hk + "/"):
+            f = f[len(ws.hk) + 1:]
+        loc = "%s:%s:%s in function %s" % (f, sl.get("line", "?"), sl.get("column", "?"), sl.get("function", "?")) if f else ""
+        st = r.get("status")
+        if cls == "cover":
+            cst = {"FAILURE": "SATISFIED", "SUCCESS": "UNSATISFIABLE"}.get(st, st)
+            if res.covers.get(desc) != "SATISFIED":
+                res.covers[desc] = cst
+            lines.append("cover %s: %s" % (desc, cst))
+            continue
+        if st == "FAILURE":
+            if cls == "unwind" or "unwinding assertion" in desc:
+                unwind_fail = True
+            res.failed.append((desc, loc))
+            lines.append("FAILURE %s @ %s" % (desc, loc))
+        elif st not in ("SUCCESS",):
+            errors.append("property %s status %s" % (name, st))
+    with open(log, "a") as lf:
+        lf.write("\n".join(lines) + "\n")
+        lf.write("checks=%d failed=%d cbmc_wall=%.2fs\n" % (res.nchecks, len(res.failed), res.solver_s))
+    if errors and not res.failed:
+        res.status = "error"
+        res.note = "CBMC error: %s" % " | ".join(errors)[:300]
+    elif res.failed:
+        res.status = "fail"
+        unw = [d for d, _ in res.failed if "unwinding assertion" in d]
+        if unw and len(unw) == len(res.failed):
+            res.status = "unwind"
+            res.note = "unwinding bound too small"
+    else:
+        res.status = "ok"
+    return res
+
+
+def run_jobs(ws, features, jobs, workers=None, progress=True, need_playback=None):
+    """need_playback(job, result) -> bool: for a refuted harness, whether a concrete playback test is
+    wanted (then the harness is re-run through `cargo kani --harness ... --concrete-playback=print`)."""
     workers = workers or max(2, min(NCPU - 2, len(jobs)))
     full = resolve_harness_names(ws, [j.name for j in jobs])
+    mds = harness_metadata(ws) if direct_available() else {}
     results = []
     t0 = time.time()
 
@@ -205,6 +361,10 @@ def run_jobs(ws, features, jobs, workers=None, progress=True):
         if job.name in full:
             # run with the fully qualified name so that --exact matches
             job._full = full[job.name]
+        if job.name in mds:
+            r = run_job_direct(ws, job, mds[job.name])
+            if r is not None:
+                return r
         return run_job(ws, features, job)
 
     with cf.ThreadPoolExecutor(max_workers=workers) as ex:
@@ -219,6 +379,15 @@ def run_jobs(ws, features, jobs, workers=None, progress=True):
     order = {j.name: i for i, j in enumerate(jobs)}
     results.sort(key=lambda r: order[r.job.name])
     return results
+
+
+def playback_for(ws, features, res):
+    """Re-run a refuted harness through kani-driver to obtain the concrete playback unit test."""
+    r2 = run_job(ws, features, res.job)
+    res.playback = r2.playback
+    if r2.status == "fail" and r2.failed:
+        res.failed = r2.failed
+    return res
 
 
 def run_job(ws, features, job):
